@@ -35,8 +35,19 @@ class Ctx:
                 self.chk.violation(tag, what, replay, **kw)
 
 
-def new_array(ctx, rng, nd=3, np_=2, ncontent=2, hashsize=None, pending=False, populate=True, splits=1):
-    a = Array(ctx.binary, nd=nd, np_=np_, ncontent=ncontent, shim=ctx.shim, hashsize=hashsize, splits=splits)
+class UArray(Array):
+    """an array whose first two data disks have a valid, stable UUID (--test-fake-uuid on every command): the inodes recorded
+    in the content file are trusted by the scan (moved / restored files are recognised), as on real disks"""
+    fake_uuid = True
+
+    def run(self, cmd, *opts, **kw):
+        if '--test-fake-uuid' not in opts:
+            opts = tuple(opts) + ('--test-fake-uuid',)
+        return Array.run(self, cmd, *opts, **kw)
+
+
+def new_array(ctx, rng, nd=3, np_=2, ncontent=2, hashsize=None, pending=False, populate=True, splits=1, uuid=False):
+    a = (UArray if uuid else Array)(ctx.binary, nd=nd, np_=np_, ncontent=ncontent, shim=ctx.shim, hashsize=hashsize, splits=splits)
     if populate:
         L.populate(a, rng)
     r = a.run('sync')
@@ -160,15 +171,19 @@ def cross_check_scan(ctx, o, desc):
     if not hasattr(o, 'pre'):
         return
     tags = o.r.tags
+    if not any(t.startswith('scan:') for t in tags) or 'unexpected zero size' in o.r.err:
+        return
     for c in o.pre['_scan']:
         n = c['name']
-        rm = len([t for t in tags if t.startswith('scan:remove:%s:' % n)])
-        up = len([t for t in tags if t.startswith('scan:update:%s:' % n)])
-        ad = len([t for t in tags if t.startswith('scan:add:%s:' % n)])
-        if any(t.startswith('scan:') for t in tags) and not any('unexpected zero size' in l for l in o.r.err.split('\n')):
-            if (rm, up, ad) != (c['remove'], c['change'], c['insert']):
-                ctx.viol('summary', 'HARNESS-DRIFT (%s): scan counters of disk %s computed by the harness (remove %d, update %d, add %d) differ from the tool (%d, %d, %d)'
-                         % (desc, n, c['remove'], c['change'], c['insert'], rm, up, ad), {'scenario': desc, 'tags': [t for t in tags if t.startswith('scan:')][:40]}, no_input=True)
+
+        def cnt(kind):
+            return len([t for t in tags if t.startswith('scan:%s:%s:' % (kind, n))])
+        cp = len([t for t in tags if t.startswith('scan:copy:') and len(t.split(':')) >= 6 and t.split(':')[4] == n])
+        tool = (cnt('remove'), cnt('update'), cnt('add'), cp, cnt('move'), cnt('restore'))
+        mine = (c['remove'], c['change'], c['insert'], c['copy'], c['move'], c['restore'])
+        if tool != mine:
+            ctx.viol('summary', 'HARNESS-DRIFT (%s): scan counters of disk %s computed by the harness (remove, update, add, copy, move, restore) = %s differ from the tool %s'
+                     % (desc, n, mine, tool), {'scenario': desc, 'tags': [t for t in tags if t.startswith('scan:')][:40]}, no_input=True)
 
 
 # ------------------------------------------------------------------------------------------------ scenarios
@@ -212,6 +227,16 @@ def trig_empty(a, rng, di, variant):
             os.unlink(a.path(d, f))
         a.write(d, 'brandnew', rng.randbytes(1500))
         return True
+    if variant == 'renamed' and getattr(a, 'fake_uuid', False) and di < 2:
+        # with trusted inodes the renamed files are recognised as moved: evidence that the disk is mounted
+        for f in fl:
+            p = a.path(d, f)
+            if os.path.islink(p):
+                os.unlink(p)
+            else:
+                os.rename(p, p + '.moved')
+                a.note_version(d, f + '.moved')
+        return False
     if variant == 'renamed':                     # without usable inodes a rename is remove + add
         for f in fl:
             p = a.path(d, f)
@@ -231,6 +256,34 @@ def trig_empty(a, rng, di, variant):
         for f in fl[1:]:
             os.unlink(a.path(d, f))
         return not (len(fl) >= 1)
+    other = a.disks[(di + 1) % a.nd]
+    if variant in ('removed_plus_copies', 'removed_plus_moved_in'):
+        # every recorded file gone; new files that the scan recognises as COPIES of files of another disk (same name, size, time)
+        for f in fl:
+            os.unlink(a.path(d, f))
+        srcs = [f for f in files_of(a, other) if not os.path.islink(a.path(other, f)) and os.path.getsize(a.path(other, f)) > 0][:2]
+        for f in srcs:
+            src, dst = a.path(other, f), a.path(d, f)
+            os.makedirs(os.path.dirname(dst), exist_ok=True)
+            st = os.stat(src)
+            shutil.copyfile(src, dst)
+            os.utime(dst, ns=(st.st_mtime_ns, st.st_mtime_ns))
+            a.note_version(d, f)
+            if variant == 'removed_plus_moved_in':
+                os.unlink(src)
+        return True
+    if variant == 'restored':                    # same names, sizes, times, new inodes (a restore that keeps time-stamps): not a trigger
+        for f in fl:
+            p = a.path(d, f)
+            if os.path.islink(p):
+                continue
+            st = os.stat(p)
+            data = open(p, 'rb').read()
+            with open(p + '.tmp~', 'wb') as g:
+                g.write(data)
+            os.utime(p + '.tmp~', ns=(st.st_mtime_ns, st.st_mtime_ns))
+            os.rename(p + '.tmp~', p)
+        return False
     raise KeyError(variant)
 
 
@@ -262,6 +315,17 @@ def trig_zero(a, rng, di, variant):
     if variant == 'to_one_byte':
         a.write(d, f, b'x')
         return False
+    if variant in ('replaced_empty_new_inode', 'replaced_empty_new_inode_keep_mtime'):
+        # an interrupted "write to a temporary file + rename": the name now holds an EMPTY file with ANOTHER inode
+        with open(p + '.tmp~', 'wb'):
+            pass
+        if variant.endswith('keep_mtime'):
+            os.utime(p + '.tmp~', ns=(st.st_mtime_ns, st.st_mtime_ns))
+        os.rename(p + '.tmp~', p)
+        if os.stat(p).st_ino == st.st_ino:
+            raise RuntimeError('inode reused')
+        a.note_version(d, f)
+        return True
     raise KeyError(variant)
 
 
@@ -286,14 +350,18 @@ def trig_parity(a, rng, lvl, variant, used):
     raise KeyError(variant)
 
 
-def scenario_sync_trigger(ctx, seed, kind, where, variant, pending, shape, fmt=None):
+def scenario_sync_trigger(ctx, seed, kind, where, variant, pending, shape, fmt=None, uuid=False):
     """fmt: None (version-2 content, no recorded parity sizes) | 'hashsize8' | 'split2' (version-3 content: 'Q' records)"""
     rng = random.Random(seed)
     nd, np_, nc = shape
-    a = new_array(ctx, rng, nd=nd, np_=np_, ncontent=nc, hashsize=8 if fmt == 'hashsize8' else None, splits=2 if fmt == 'split2' else 1)
+    a = new_array(ctx, rng, nd=nd, np_=np_, ncontent=nc, hashsize=8 if fmt == 'hashsize8' else None, splits=2 if fmt == 'split2' else 1, uuid=uuid)
     paths = L.Paths(a)
-    desc = '%s:%s@%d%s nd=%d np=%d nc=%d%s' % (kind, variant, where, '+pending' if pending else '', nd, np_, nc, ' ' + fmt if fmt else '')
-    replay = {'seed': seed, 'kind': kind, 'where': where, 'variant': variant, 'pending': pending, 'shape': shape, 'content_format': fmt}
+    desc = '%s:%s@%d%s nd=%d np=%d nc=%d%s%s' % (kind, variant, where, '+pending' if pending else '', nd, np_, nc, ' ' + fmt if fmt else '', ' uuid' if uuid else '')
+    replay = {'seed': seed, 'kind': kind, 'where': where, 'variant': variant, 'pending': pending, 'shape': shape, 'content_format': fmt, 'fake_uuid': uuid}
+    if uuid:
+        st0 = a.content()
+        if not all(m['uuid'] for m in st0['maps'][:2]):
+            raise RuntimeError('--test-fake-uuid did not record UUIDs')
     try:
         if pending:
             add_pending(a, rng)
@@ -568,6 +636,35 @@ def scenario_lock_three(ctx, seed, shape, first):
         shutil.rmtree(a.root, ignore_errors=True)
 
 
+def scenario_rewritten_as_copies(ctx, seed, uuid):
+    """every file of d1 overwritten by a copy (same name, size, time) of the file of the same name of d2: the scan counts them as
+    COPY, not as change, so with nothing removed the rule of scan.c:1837 does not fire (model and tool must agree; noted)"""
+    rng = random.Random(seed)
+    a = (UArray if uuid else Array)(ctx.binary, nd=2, np_=1, ncontent=1, shim=ctx.shim)
+    paths = L.Paths(a)
+    try:
+        k = 0
+        for d in a.disks:
+            for n in ('p', 'q', 'dir/r'):
+                k += 1
+                a.write(d, n, rng.randbytes(1500 + 700 * k), mtime_ns=(1700000000 + 13 * k) * 10**9 + 100 + k)
+        if a.run('sync').rc != 0:
+            raise RuntimeError('initial sync failed')
+        for n in ('p', 'q', 'dir/r'):
+            src, dst = a.path('d2', n), a.path('d1', n)
+            st = os.stat(src)
+            shutil.copyfile(src, dst)
+            os.utime(dst, ns=(st.st_mtime_ns, st.st_mtime_ns))
+            a.note_version('d1', n)
+        o = run_case(ctx, a, paths, 'sync', [], None, 'empty:all files of d1 rewritten as copies of d2 (copy counter, not change)%s' % (' uuid' if uuid else ''),
+                     {'seed': seed, 'kind': 'rewritten_as_copies', 'fake_uuid': uuid})
+        cross_check_scan(ctx, o, 'rewritten_as_copies')
+        if o.rc == 0:
+            ctx.notes.add('a disk whose files are ALL rewritten as copies (same name, size, time) of files of another disk is not refused: the scan counts them in `copy`, the all-rewritten rule (scan.c:1837-1841) looks at `change` only')
+    finally:
+        shutil.rmtree(a.root, ignore_errors=True)
+
+
 def scenario_empty_dirs_only(ctx, seed):
     """a disk that only ever held empty directories: removing them is not `all files missing`"""
     rng = random.Random(seed)
@@ -683,6 +780,30 @@ def main(tier, replay=None):
             for pending in ([False, True] if thorough or variant == 'all_removed' else [bool(k % 2)]):
                 jobs.append((scenario_sync_trigger, (rng.getrandbits(30), 'empty', where, variant, pending, sh)))
         k += 1
+    # (a') what else is on the emptied disk: copies of other disks' files, files moved in, restored files
+    for variant in ['removed_plus_copies', 'removed_plus_moved_in', 'restored']:
+        sh = shape(k)
+        for where in (range(sh[0]) if thorough else [rng.randrange(sh[0])]):
+            jobs.append((scenario_sync_trigger, (rng.getrandbits(30), 'empty', where, variant, bool(k % 2), sh)))
+        k += 1
+    # (a'', b') the empty-disk and zero-size matrices again with trusted inodes (valid UUIDs: --test-fake-uuid, first two disks)
+    for kind, variants in (('empty', ['all_removed', 'all_rewritten', 'mixed', 'removed_plus_new', 'renamed', 'symlink_stays', 'one_file_stays',
+                                      'removed_plus_copies', 'removed_plus_moved_in', 'restored']),
+                           ('zero', ['truncate', 'truncate_keep_mtime', 'truncate_renamed', 'empty_stays_empty', 'to_one_byte',
+                                     'replaced_empty_new_inode', 'replaced_empty_new_inode_keep_mtime'])):
+        for variant in variants:
+            sh = [(2, 1, 1), (2, 2, 2)][k % 2]
+            for where in (range(2) if thorough else [k % 2]):
+                for pending in ([False, True] if thorough else [bool((k // 2) % 2)]):
+                    jobs.append((scenario_sync_trigger, (rng.getrandbits(30), kind, where, variant, pending, sh, None, True)))
+            k += 1
+    for variant in ['replaced_empty_new_inode', 'replaced_empty_new_inode_keep_mtime']:
+        sh = shape(k)
+        for where in (range(sh[0]) if thorough else [rng.randrange(sh[0])]):
+            jobs.append((scenario_sync_trigger, (rng.getrandbits(30), 'zero', where, variant, bool(k % 2), sh)))
+        k += 1
+    jobs.append((scenario_rewritten_as_copies, (rng.getrandbits(30), False)))
+    jobs.append((scenario_rewritten_as_copies, (rng.getrandbits(30), True)))
     # (b) zero size
     for variant in ['truncate', 'truncate_keep_mtime', 'truncate_renamed', 'empty_stays_empty', 'to_one_byte']:
         sh = shape(k)
